@@ -1625,7 +1625,22 @@ def run_surface(desc, ctx):
             return np.array(R.face_ok)
         if fn == "vertex_normals":
             return vn_ok[extras["interpolation"]]
+        if fn == "parallel_transport_curvature":
+            return ptc_ok
         return None
+
+    # parallel transport on the vertex connection: at a border (feature) vertex the connection rounds (angle sum x corner_order / 2 pi) to an
+    # integer, a discrete decision.  Where the angle sum sits on a rounding tie (regular strips: 3 pi / 4, ...) the last bit decides, and a rigid
+    # motion legitimately flips it: faces touching such a vertex are not compared between the original and its moved copy
+    tie = set()
+    for v in R.border_vertices:
+        tot = sum(a_ for (fi_, v_), a_ in R.angle.items() if v_ == v)
+        x = tot * 4 / (2 * math.pi)
+        if abs(x - math.floor(x) - 0.5) < 1e-6 or abs(tot - 2 * math.pi / 4) < 1e-6:
+            tie.add(v)
+    ptc_ok = np.array([not any(v in tie for v in f) for f in R.F]) if tie else None
+    if tie:
+        ctx.note("parallel_transport_not_compared_next_to_border_vertices_on_a_rounding_tie")
 
     # ---- rigid motion + renumbering + face order + face rotation
     V2, F2, perm = surfaces.renumber(V, F, rng)
